@@ -32,8 +32,11 @@ Definition run_case (c : case) : val :=
       let inst := inst_mask words in
       let pr := map q_of probs in
       let Rm := exchangeability F n inst (map (fun mp => (fst mp, q_of (snd mp))) preds) in
-      let wp := if Z.eqb mpkind 1 then monomer_word_probs F words pr else pr in
+      let mons := map (fun p => firstn k (skipn (p * k) pr)) (seq 0 len) in   (* mpkind 3: probs = [position][monomer] flattened *)
+      let wp := if Z.eqb mpkind 1 then monomer_word_probs F words pr
+                else if Z.eqb mpkind 3 then posn_word_probs F words mons else pr in
       let mpm := if Z.eqb mpkind 1 then mpm_monomer F n words inst pr
+                 else if Z.eqb mpkind 3 then mpm_posn F n words inst mons
                  else if Z.eqb mpkind 2 then mpm_conditional F qzero n k len words inst pr
                  else mpm_simple F n pr in
       let Q := if stationary then calcQ_stationary F n wp mpm Rm else calcQ_general F n wp Rm in
